@@ -14,7 +14,7 @@ Next == UpdateKeep \/ UpdateCut
 Spec == Init /\ [][Next]_vars
 Bound == TLCGet("level") <= Depth
 
-LC == INSTANCE Lifecycle WITH RestartTo <- 1, Incs <- {1}, HasRecs <- TRUE, EpochBound <- FALSE, RefRestart <- FALSE,
+LC == INSTANCE Lifecycle WITH ltab <- [restart |-> 1, incs |-> {1}, hasrecs |-> TRUE, epochbound |-> FALSE, refrestart |-> FALSE],
                               state <- st, warm <- (total % cfg.T = 0 /\ wadd > cfg.wthr)
 LCSpec == LC!Spec
 TypeOK == LC!TypeOK /\ st # "warning"
